@@ -12,7 +12,8 @@
        the tables that tools/c28_scan.py extracts from ormtypes.py on every run, Gen/Mutators.v):
            list / dict arguments are converted with TrackedValue.make (same owner), the built-in method runs,
            obj._attr_changed_(attr) is called: the attribute's write bit is set               -> dirty := true
-     * otherwise (plain container, or a method inherited unchanged from list / dict):
+     * otherwise (plain container, or a method inherited unchanged from list / dict -- none is left since fix f0ecc86,
+       which added __iadd__, __imul__, __ior__; the tables decide, not this file):
            the built-in method runs on the raw arguments and nobody is told                    -> dirty unchanged
 
    At commit an object whose write bit is set writes json.dumps(value); otherwise the column keeps its old text. *)
@@ -93,7 +94,9 @@ Inductive pkey := KIdx (i : Z) | KKey (k : key).
 Definition path := list pkey.
 
 (* every mutating method / operator of list (CPython); `aslist` = the iterable argument is a list (True) or some
-   other iterable such as a tuple or generator (False): tracked_method converts only list / dict arguments *)
+   other iterable such as a tuple or generator (False).  tracked_method converts only list / dict arguments, but since
+   fix f0ecc86 TrackedList.extend / slice __setitem__ turn any iterable into a list first, so the flag no longer matters
+   for a tracked receiver (it is kept in the operation language: the harness still passes tuples). *)
 Inductive lact : Type :=
 | LSetItem (i : Z) (v : jv)
 | LSetSlice (a b : option Z) (aslist : bool) (items : list jv)
@@ -238,7 +241,7 @@ Definition list_step (g : largs) (l : list tv) : option (list tv) :=
 (* conversion of the arguments: [argtag] = Some o when tracked_method runs (TrackedValue.make on list / dict
    arguments), None when the built-in is reached directly *)
 Definition conv_items (argtag : option owner) (aslist : bool) (items : list jv) : list tv :=
-  map (wrap (if aslist then argtag else None)) items.
+  map (wrap argtag) items.
 
 Definition conv_lact (argtag : option owner) (a : lact) : largs :=
   match a with
